@@ -45,6 +45,7 @@ Definition obj_eqb (n : nat) (a b : obj) : bool :=
   | OSet s, OSet t => sset_eqb s t
   | OCqm o1 c1, OCqm o2 c2 => poly_coeff_eqb n o1 o2 && cons_eqb n c1 c2
   | OVars l1, OVars l2 => list_eqb Nat.eqb l1 l2
+  | OOpaque a, OOpaque b => (a =? b)%nat
   | _, _ => false
   end.
 
